@@ -66,6 +66,14 @@ def cases(ctx):
     for n in (["conf-alt-AB", "conf-model-missing-atoms"] if not ctx.thorough() else
               ["conf-alt-AB", "conf-alt-BC", "conf-alt-AB-mutant", "conf-model-missing-atoms", "conf-model-mutant"]):
         out.append((n, C.test_pdb_text(n), []))
+    # point mutants between conformations: a reported group that exists in some conformations only
+    from . import c08
+    multi = dict(c08.constructed(ctx))
+    for n in (("mutant-A-ASP-B-ASN", "mutant-A-ASN-B-ASP") if not ctx.thorough() else
+              ("mutant-A-ASP-B-ASN", "mutant-A-ASN-B-ASP", "asp-only-in-A", "asp-only-in-B", "model2-missing-atoms", "twins+altloc",
+               "nterm-residue-altAB")):
+        if n in multi:
+            out.append((n, multi[n], []))
     return out
 
 
